@@ -22,7 +22,7 @@ fn exec(t: &[String]) -> Option<String> {
     let fl = split_flavour(t).1;
     let g = r.gr();
     // the tiling is a function of (chrom, start, end, bin) for every implementor of BEDLike, whatever its other fields hold
-    let (a, b) = crate::with_bedlike!(fl, &r, |x| (guarded(|| x.split_by_len(bin).collect()), guarded(|| x.rsplit_by_len(bin).collect())));
+    let (a, b) = crate::with_bedlike!(fl, &r, |x| (guarded(|| drain_mode(x.split_by_len(bin), mode_of(t))), guarded(|| drain_mode(x.rsplit_by_len(bin), mode_of(t) / 5))));
     // the coverage counters allocate one counter per bin: only build them for small tilings
     let nb = (r.end - r.start).div_ceil(bin.max(1));
     let (c, d) = if nb <= 100_000 {
